@@ -73,9 +73,10 @@ func (c *chacha20poly1305) open(dst, nonce, ciphertext, additionalData []byte) (
 	var state [16]uint32
 	setupState(&state, &c.key, nonce)
 
+	tag := ciphertext[len(ciphertext)-16:]
 	ciphertext = ciphertext[:len(ciphertext)-16]
 	ret, out := sliceForAppend(dst, len(ciphertext))
-	if alias.InexactOverlap(out, ciphertext) {
+	if alias.InexactOverlap(out, ciphertext) || alias.AnyOverlap(out, tag) {
 		panic("chacha20poly1305: invalid buffer overlap of output and input")
 	}
 	if alias.AnyOverlap(out, additionalData) {
